@@ -8,19 +8,33 @@ MANIFEST = dict(
    note="Trusted: Lean kernel; axioms propext/Classical.choice/Quot.sound only; the translator (regexp/syntax AST -> Lean term; validated by comparing Re.accepts with Go regexp on every generated case); the specification automata in Model/FormatSpec.lean as the reading of the documented formats; Go regexp semantics as the reading of a JSON-Schema pattern. Parser-based validators (net.ParseCIDR/netip, time.Parse) are modelled by hand transcription validated on generated cases only. IPv6 family: RFC 4291 recogniser vs the library on generated cases only.",
    design="DESIGN.md §5 C20; notes/C20.md")
 
-MODULES = ["Gozod.Proofs.C20"]
+MODULES = ["Gozod.Proofs.C20", "Gozod.Proofs.C20DateTime"]
 REGEX_FORMATS = ["ipv4", "hex", "e164", "mac", "macdash", "base64", "uuid", "uuidv4", "uuidv6", "uuidv7", "guid"]
 OPTION_JOBS = ["macdot"] + ["tmo_" + p for p in "nm01239"]
+DTO = ["%s_%s_%s" % (p, o, l) for p in "nm01239" for o in "01" for l in "01"]   # IsoDateTime(options): precision x offset x local
+TAIL_JOBS = ["dtt_" + x for x in DTO] + ["dtt_rfc_optsec"]                      # certificates of what follows the date
 THEOREMS = (["Gozod.C20.bisim_sound", "Gozod.C20.bisim_sound_full"]
     + ["Gozod.C20.c20_%s" % f for f in REGEX_FORMATS] + ["Gozod.C20.c20_%s_pattern" % f for f in REGEX_FORMATS]
     + ["Gozod.C20.c20_cidrv4_pattern", "Gozod.C20.c20_cidrv4", "Gozod.C20.isoDate_quot", "Gozod.C20.c20_isodate_pattern",
        "Gozod.C20.c20_isodatetime_pattern_optsec", "Gozod.C20.c20_isodatetime_pattern_partial", "Gozod.C20.c20_isodatetime_pattern_witness",
-       "Gozod.C20.c20_isodatetime_goparse_witness",] + ["Gozod.C20.c20_%s" % j for j in OPTION_JOBS] + [ "Gozod.C20.c20_base64url_pattern_partial", "Gozod.C20.c20_base64url_pattern_witness"])
+       "Gozod.C20.c20_isodatetime_goparse_witness",] + ["Gozod.C20.c20_%s" % j for j in OPTION_JOBS] + [ "Gozod.C20.c20_base64url_pattern_partial", "Gozod.C20.c20_base64url_pattern_witness"]
+    # IPv6 / CIDRv6 (certificates over the strings without '.' and '%'; witnesses for the three defect classes)
+    + ["Gozod.C20.bisim_sound_R", "Gozod.C20.bisim_sound_R_full", "Gozod.C20.ipv6_hex_quot", "Gozod.C20.cidrv6_hex_quot",
+       "Gozod.C20.c20_ipv6_partial", "Gozod.C20.c20_ipv6_pattern_partial", "Gozod.C20.c20_cidrv6_pattern_partial",
+       "Gozod.C20.c20_ipv6_witnesses", "Gozod.C20.c20_ipv6_witness", "Gozod.C20.c20_ipv6_pattern_witness",
+       "Gozod.C20.c20_cidrv6_pattern_witnesses", "Gozod.C20.c20_cidrv6_pattern_witness", "Gozod.C20.c20_cidrv6"]
+    # the matcher is the language; concatenation; date-time = date (10 bytes) . tail; all 28 option sets
+    + ["Gozod.Re.accepts_iff_lang", "Gozod.Re.accepts_seq", "Gozod.Re.accepts_alt", "Gozod.C20.date_length", "Gozod.C20.dateThen_split",
+       "Gozod.C20.accepts_date_seq", "Gozod.C20.datetime_of_tail", "Gozod.C20.c20_dto_of"]
+    + ["Gozod.C20.c20_dto_%s" % x for x in DTO] + ["Gozod.C20.c20_dto_%s_pattern" % x for x in DTO]
+    + ["Gozod.C20.c20_isodatetime_pattern_optsec_full", "Gozod.C20.isoDateTime_quot", "Gozod.C20.c20_isodatetime_pattern_partial_full"])
 
 # certificate job -> format name of the correspondence
-JOB_FORMAT = {"isodatetime_optsec": "isodatetime", "isodatetime_partial": "isodatetime", "base64url_partial": "base64url"}
+JOB_FORMAT = {"isodatetime_optsec": "isodatetime", "isodatetime_partial": "isodatetime", "base64url_partial": "base64url",
+              "dtt_rfc_optsec": "isodatetime", **{"dtt_" + x: "dto_" + x for x in DTO},
+              "ipv6_nopct": "ipv6", "ipv6_partial": "ipv6", "cidrv6_nopct": "cidrv6", "cidrv6_partial": "cidrv6"}
 # jobs whose certificate the proof module imports (a `differ` there breaks a theorem)
-REQUIRED_JOBS = set(REGEX_FORMATS) | {"cidrv4", "isodate", "isodatetime_optsec", "isodatetime_partial", "base64url_partial"} | set(OPTION_JOBS)
+REQUIRED_JOBS = set(REGEX_FORMATS) | {"cidrv4", "isodate", "isodatetime_optsec", "isodatetime_partial", "base64url_partial"} | set(OPTION_JOBS) | {"ipv6_partial", "cidrv6_partial"} | set(TAIL_JOBS)
 
 GEN = os.path.join(C.LEAN, "Gozod", "Gen")
 
@@ -158,7 +172,9 @@ def run(res):
         if not t: continue
         certs[t[0]] = " ".join(t[1:])
         if t[1] == "differ":
-            extra.append((JOB_FORMAT.get(t[0], t[0]), t[2]))
+            # a tail job distinguishes what follows the date: replay it behind a valid date
+            hx = t[2] if not t[0].startswith("dtt_") else b"2020-01-01".hex() + ("" if t[2] == "-" else t[2])
+            extra.append((JOB_FORMAT.get(t[0], t[0]), hx))
             if t[0] in REQUIRED_JOBS: broken.append("%s: pattern and definition differ on hex %s" % (t[0], t[2]))
         elif t[1] == "error":
             broken.append("%s: %s" % (t[0], " ".join(t[2:])))
